@@ -9,6 +9,7 @@ package utils
 //@   property C20
 //@   modifies a.args
 //@   ensures[empty] len(a.args) == 0
+//@   ensures[same-storage] base(a.args) == old(base(a.args)) && off(a.args) == old(off(a.args)) && cap(a.args) == old(cap(a.args))
 
 // argsPool is assigned once, in init, with a fresh pool object
 //@ constglobal argsPool @C20
@@ -100,3 +101,39 @@ package utils
 //@   flags safety
 //@   ensures[shrinks] len(result) <= len(args)
 //@   loop 0: invariant[bounds] 0 <= i && i <= n && n == len(args) && n <= old(len(args))
+
+// ---- C01: CopyTo hands out own copies of the metadata ----------------------------
+// the key/value buffers of the copy are never the buffers of the source pairs:
+// the source is the metadata of a pooled message, which is parsed over in place
+// for the next frame. (Assumed of the destination: it does not already share a
+// buffer with the source.)
+//@ func copyArgs
+//@   property C01
+//@   requires?[destination-does-not-share-with-source] base(dst) != base(src) && (forall i int :: {dst[i]} 0 <= i && i < len(src) ==> (len(src[i].key) > 0 ==> base(dst[i].key) != base(src[i].key)) && (len(src[i].value) > 0 ==> base(dst[i].value) != base(src[i].value)))
+//@   requires?[source-buffers-allocated] forall i int :: {src[i]} 0 <= i && i < len(src) ==> (len(src[i].key) > 0 ==> base(src[i].key) > 0) && (len(src[i].value) > 0 ==> base(src[i].value) > 0)
+//@   modifies allof(type(argsKV)), allelems(type(byte))
+//@   ensures[same-number-of-pairs] len(result) == len(src)
+//@   ensures[source-keys-unchanged] forall i int :: {src[i]} 0 <= i && i < len(src) ==> src[i].key == old(src[i].key)
+//@   ensures[source-values-unchanged] forall i int :: {src[i]} 0 <= i && i < len(src) ==> src[i].value == old(src[i].value)
+//@   ensures[own-key-buffers] forall i int :: {result[i]} 0 <= i && i < len(src) && len(src[i].key) > 0 ==> base(result[i].key) != base(src[i].key)
+//@   ensures[own-value-buffers] forall i int :: {result[i]} 0 <= i && i < len(src) && len(src[i].value) > 0 ==> base(result[i].value) != base(src[i].value)
+//@   loop 0: invariant[bounds] 0 <= i && i <= n && n == len(src) && len(dst) == n
+//@   loop 0: invariant[lists-apart] base(dst) != base(src)
+//@   loop 0: invariant[no-pair-shares-a-key-buffer] forall j int :: {dst[j]} 0 <= j && j < n && len(src[j].key) > 0 ==> base(dst[j].key) != base(src[j].key)
+//@   loop 0: invariant[no-pair-shares-a-value-buffer] forall j int :: {dst[j]} 0 <= j && j < n && len(src[j].value) > 0 ==> base(dst[j].value) != base(src[j].value)
+//@   loop 0: invariant[source-keys-unchanged] forall j int :: {src[j]} 0 <= j && j < n ==> src[j].key == old(src[j].key)
+//@   loop 0: invariant[source-values-unchanged] forall j int :: {src[j]} 0 <= j && j < n ==> src[j].value == old(src[j].value)
+
+// the copy handed to dst shares no key/value buffer with the source
+//@ func (*Args).CopyTo
+//@   property C01
+//@   requires a != nil && dst != nil
+//@   requires?[destination-is-another-list] a != dst
+//@   requires?[destination-does-not-share-with-source] base(dst.args) != base(a.args) && (forall i int :: {dst.args[i]} 0 <= i && i < len(a.args) ==> (len(a.args[i].key) > 0 ==> base(dst.args[i].key) != base(a.args[i].key)) && (len(a.args[i].value) > 0 ==> base(dst.args[i].value) != base(a.args[i].value)))
+//@   requires?[source-buffers-allocated] forall i int :: {a.args[i]} 0 <= i && i < len(a.args) ==> (len(a.args[i].key) > 0 ==> base(a.args[i].key) > 0) && (len(a.args[i].value) > 0 ==> base(a.args[i].value) > 0)
+//@   modifies dst.args, allof(type(argsKV)), allelems(type(byte))
+//@   ensures[same-number-of-pairs] len(dst.args) == len(a.args)
+//@   ensures[own-key-buffers] forall i int :: {dst.args[i]} 0 <= i && i < len(a.args) && len(a.args[i].key) > 0 ==> base(dst.args[i].key) != base(a.args[i].key)
+//@   ensures[own-value-buffers] forall i int :: {dst.args[i]} 0 <= i && i < len(a.args) && len(a.args[i].value) > 0 ==> base(dst.args[i].value) != base(a.args[i].value)
+//@   ensures[source-keys-unchanged] forall i int :: {a.args[i]} 0 <= i && i < len(a.args) ==> a.args[i].key == old(a.args[i].key)
+//@   ensures[source-values-unchanged] forall i int :: {a.args[i]} 0 <= i && i < len(a.args) ==> a.args[i].value == old(a.args[i].value)
